@@ -376,7 +376,7 @@ impl Property for C11 {
     }
     fn run(&self, ctx: &mut Ctx) {
         let corpus_files = corpus();
-        let cases = ctx.tier.pick(2_500, 50_000);
+        let cases = ctx.tier.pick(8_000, 50_000);
         let max_batches = ctx.tier.pick(8, 30);
         let every = ctx.tier.pick(2, 1);
         ctx.run_streams("c11-history", cases, 1200, |ctx, bytes| {
